@@ -2190,27 +2190,150 @@ theorem sub_err_q (prec : ℕ) (hp : 2 ≤ prec) (E r eu ev : ℚ) (e : ℤ)
     _ ≤ E := hE
     _ ≤ 4 * E := by linarith
 
+
+/-- x is an integer multiple of B^W -/
+def IsMul (x : ℚ) (W : ℤ) : Prop := ∃ k : ℤ, x = (k : ℚ) * (B : ℚ) ^ W
+
+theorem IsMul.sub {x y : ℚ} {W : ℤ} (hx : IsMul x W) (hy : IsMul y W) : IsMul (x - y) W := by
+  obtain ⟨a, ha⟩ := hx; obtain ⟨b, hb⟩ := hy
+  exact ⟨a - b, by rw [ha, hb]; push_cast; ring⟩
+
+theorem IsMul.add {x y : ℚ} {W : ℤ} (hx : IsMul x W) (hy : IsMul y W) : IsMul (x + y) W := by
+  obtain ⟨a, ha⟩ := hx; obtain ⟨b, hb⟩ := hy
+  exact ⟨a + b, by rw [ha, hb]; push_cast; ring⟩
+
+theorem IsMul.neg {x : ℚ} {W : ℤ} (hx : IsMul x W) : IsMul (-x) W := by
+  obtain ⟨a, ha⟩ := hx; exact ⟨-a, by rw [ha]; push_cast; ring⟩
+
+theorem IsMul.mono {x : ℚ} {W W' : ℤ} (hx : IsMul x W) (h : W' ≤ W) : IsMul x W' := by
+  obtain ⟨a, ha⟩ := hx
+  obtain ⟨j, hj⟩ : ∃ j : ℕ, W = W' + j := ⟨(W - W').toNat, by omega⟩
+  exact ⟨a * (B : ℤ) ^ j, by rw [ha, hj, zpow_add₀ Bq_ne, zpow_natCast]; push_cast; ring⟩
+
+theorem IsMul_nat_mul (n : ℕ) (z W : ℤ) (h : W ≤ z) : IsMul ((n : ℚ) * (B : ℚ) ^ z) W :=
+  IsMul.mono ⟨n, by push_cast; ring⟩ h
+
+/-- limbs of length ≤ n placed with exponent e are a multiple of B^(e−n) -/
+theorem qv_isMul (l : List Nat) (e : ℤ) (n : ℕ) (h : l.length ≤ n) : IsMul (qv l e) (e - (n : ℤ)) := by
+  unfold qv; exact IsMul_nat_mul _ _ _ (by omega)
+
+theorem Bz_isMul (e W : ℤ) (h : W ≤ e) : IsMul ((B : ℚ) ^ e) W := by
+  have := IsMul_nat_mul 1 e W h; simpa using this
+
+/-- window information of a result: a multiple of B^W within B^W of D, and D not much below B^(W+prec−1) -/
+def Win (prec : ℕ) (D : ℚ) (r : List Nat × ℤ × Bool) : Prop :=
+  D = 0 ∨ ∃ W : ℤ, IsMul (qv r.1 r.2.1) W ∧ |(if r.2.2 then -1 else 1) * qv r.1 r.2.1 - D| < (B : ℚ) ^ W ∧
+    (B : ℚ) ^ (W + (prec : ℤ) - 1) ≤ 2 * |D|
+
+theorem exact_of_win (prec : ℕ) (hp : 1 ≤ prec) (D : ℚ) (r : List Nat × ℤ × Bool) (h : Win prec D r)
+    (hf : Fits D (PREC_TO_BITS prec)) : (if r.2.2 then -1 else 1) * qv r.1 r.2.1 = D ∨ D = 0 := by
+  rcases h with h | ⟨W, ⟨k, hk⟩, herr, hbig⟩
+  · exact Or.inr h
+  by_cases hD : D = 0
+  · exact Or.inr hD
+  left
+  obtain ⟨m, k', hm, hmp⟩ := hf
+  have two_ne : (2 : ℚ) ≠ 0 := by norm_num
+  have hBW : (B : ℚ) ^ W = (2 : ℚ) ^ (64 * W) := by rw [Bq_eq, ← zpow_natCast, ← zpow_mul]; norm_num
+  have hmne : m ≠ 0 := by intro h0; apply hD; rw [hm, h0]; simp
+  have habsD : |D| = (|m| : ℤ) * (2 : ℚ) ^ k' := by
+    rw [hm, abs_mul, abs_of_pos (zpow_pos (by norm_num : (0 : ℚ) < 2) k')]; push_cast; rfl
+  -- k' ≥ 64 W
+  have hk' : 64 * W ≤ k' := by
+    by_contra hc
+    push Not at hc
+    have h1 : (2 : ℚ) ^ k' * 2 ≤ (2 : ℚ) ^ (64 * W) := by
+      have : (2 : ℚ) ^ k' * 2 = (2 : ℚ) ^ (k' + 1) := by rw [zpow_add₀ two_ne, zpow_one]
+      rw [this]; exact zpow_le_zpow_right₀ (by norm_num) (by omega)
+    have h2 : ((|m| : ℤ) : ℚ) < (B : ℚ) ^ (prec - 1) := by
+      have : (|m| : ℤ) < 2 ^ (PREC_TO_BITS prec) := hmp
+      have h3 : ((|m| : ℤ) : ℚ) < (2 : ℚ) ^ (PREC_TO_BITS prec) := by exact_mod_cast this
+      have h4 : ((B ^ (prec - 1) : ℕ) : ℚ) = (2 : ℚ) ^ (PREC_TO_BITS prec) := by exact_mod_cast Bpow_eq_two_pow prec
+      push_cast at h4; rw [h4]; exact h3
+    have h5 : (B : ℚ) ^ (W + (prec : ℤ) - 1) = (B : ℚ) ^ W * (B : ℚ) ^ (prec - 1) := by
+      rw [← zpow_natCast, ← zpow_add₀ Bq_ne]; congr 1; omega
+    rw [h5, habsD, hBW] at hbig
+    have hp2 : (0 : ℚ) < (2 : ℚ) ^ k' := zpow_pos (by norm_num) _
+    have hQ : (0 : ℚ) < (B : ℚ) ^ (prec - 1) := pow_pos Bq_pos _
+    have hm0 : (0 : ℚ) ≤ ((|m| : ℤ) : ℚ) := by exact_mod_cast abs_nonneg m
+    nlinarith
+  obtain ⟨j, hj⟩ : ∃ j : ℕ, k' = 64 * W + j := ⟨(k' - 64 * W).toNat, by omega⟩
+  have hDmul : D = ((m * 2 ^ j : ℤ) : ℚ) * (B : ℚ) ^ W := by
+    rw [hm, hj, zpow_add₀ two_ne, hBW, zpow_natCast]; push_cast; ring
+  -- both sides are integer multiples of B^W less than B^W apart
+  have hpos : (0 : ℚ) < (B : ℚ) ^ W := zpow_pos Bq_pos _
+  have hR : ∃ k2 : ℤ, (if r.2.2 then (-1 : ℚ) else 1) * qv r.1 r.2.1 = (k2 : ℚ) * (B : ℚ) ^ W := by
+    by_cases hf : r.2.2 = true
+    · exact ⟨-k, by rw [if_pos hf, hk]; push_cast; ring⟩
+    · exact ⟨k, by rw [if_neg hf, hk]; ring⟩
+  obtain ⟨k2, hk2⟩ := hR
+  rw [hk2, hDmul] at herr ⊢
+  rw [← sub_mul, abs_mul, abs_of_pos hpos] at herr
+  have h1 : |(k2 : ℚ) - ((m * 2 ^ j : ℤ) : ℚ)| < 1 := by
+    by_contra hc
+    push Not at hc
+    nlinarith
+  have h2 : |k2 - m * 2 ^ j| < 1 := by
+    have : ((|k2 - m * 2 ^ j| : ℤ) : ℚ) < 1 := by push_cast; push_cast at h1; exact h1
+    exact_mod_cast this
+  have h3 : k2 = m * 2 ^ j := by
+    have := abs_lt.mp h2; omega
+  rw [h3]
+
+
 /-- what every branch of `subCore` must deliver: X − Y ≈ ± limbs -/
 def SubOK (prec : ℕ) (D : ℚ) (r : List Nat × ℤ × Bool) : Prop :=
   Limbs r.1 ∧ r.1.getLast? ≠ some 0 ∧ r.1.length ≤ prec + 1 ∧
   (D = 0 → r.1 = []) ∧
-  (D ≠ 0 → |(if r.2.2 then -1 else 1) * qv r.1 r.2.1 - D| < eps prec * |D|)
+  (D ≠ 0 → |(if r.2.2 then -1 else 1) * qv r.1 r.2.1 - D| < eps prec * |D|) ∧
+  Win prec D r
 
 /-- sub.c general_case with the operands at least B^(e−2) apart -/
 theorem subGeneral_ok (prec : ℕ) (hp : 2 ≤ prec) (ud vd : List Nat) (exp ediff : ℤ) (h0 : 0 ≤ ediff)
     (hlu : Limbs ud) (hnu : ud ≠ []) (htu : ud.getLast? ≠ some 0) (hlv : Limbs vd)
     (hgap : (B : ℚ) ^ (exp - 2) ≤ qv ud exp - qv vd (exp - ediff)) :
     SubOK prec (qv ud exp - qv vd (exp - ediff)) (subGeneral (prec + 1) ud vd exp ediff) := by
-  obtain ⟨s0, s1, s2, s3, s4, lou, lov, kv, V', q1, q2, q3, _⟩ :=
+  obtain ⟨s0, s1, s2, s3, s4, lou, lov, kv, V', q1, q2, q3, q4, q5, q6, q7, q8⟩ :=
     subGeneral_spec (prec + 1) (by omega) ud vd exp ediff h0 hlu hnu htu hlv hgap
   have hpos : 0 < qv ud exp - qv vd (exp - ediff) := lt_of_lt_of_le (zpow_pos Bq_pos _) hgap
-  refine ⟨s1, s3, s4, fun h => absurd h (ne_of_gt hpos), fun _ => ?_⟩
-  rw [s0]
-  simp only [Bool.false_eq_true, if_false, one_mul]
   push_cast at q2 q3
-  exact sub_err_q prec hp _ _ _ _ exp q1
-    (mul_nonneg (by positivity) (le_of_lt (zpow_pos Bq_pos _)))
-    (mul_nonneg (by positivity) (le_of_lt (zpow_pos Bq_pos _))) q2 q3 hgap
+  have n1 : (0 : ℚ) ≤ (lou : ℚ) * (B : ℚ) ^ (exp - (ud.length : ℤ)) := mul_nonneg (by positivity) (le_of_lt (zpow_pos Bq_pos _))
+  have n2 : (0 : ℚ) ≤ (lov : ℚ) * (B : ℚ) ^ (exp - ediff - (vd.length : ℤ)) := mul_nonneg (by positivity) (le_of_lt (zpow_pos Bq_pos _))
+  refine ⟨s1, s3, s4, fun h => absurd h (ne_of_gt hpos), fun _ => ?_, Or.inr ⟨exp - ((prec : ℤ) + 1), ?_, ?_, ?_⟩⟩
+  · rw [s0]
+    simp only [Bool.false_eq_true, if_false, one_mul]
+    exact sub_err_q prec hp _ _ _ _ exp q1 n1 n2 q2 q3 hgap
+  · -- the result is a multiple of the window unit
+    rw [q1]
+    have e1 : qv ud exp - (lou : ℚ) * (B : ℚ) ^ (exp - (ud.length : ℤ))
+        = ((B ^ (ud.length - (prec + 1)) * val (top (prec + 1) ud) : ℕ) : ℚ) * (B : ℚ) ^ (exp - (ud.length : ℤ)) := by
+      unfold qv; rw [q4]; push_cast; ring
+    have e2 : qv vd (exp - ediff) - (lov : ℚ) * (B : ℚ) ^ (exp - ediff - (vd.length : ℤ))
+        = ((B ^ kv * V' : ℕ) : ℚ) * (B : ℚ) ^ (exp - ediff - (vd.length : ℤ)) := by
+      unfold qv; rw [q6]; push_cast; ring
+    have m1 : IsMul (qv ud exp - (lou : ℚ) * (B : ℚ) ^ (exp - (ud.length : ℤ))) (exp - ((prec : ℤ) + 1)) := by
+      rw [e1]
+      have : ((B ^ (ud.length - (prec + 1)) * val (top (prec + 1) ud) : ℕ) : ℚ) * (B : ℚ) ^ (exp - (ud.length : ℤ))
+          = ((val (top (prec + 1) ud) : ℕ) : ℚ) * (B : ℚ) ^ (exp - (ud.length : ℤ) + ((ud.length - (prec + 1) : ℕ) : ℤ)) := by
+        rw [zpow_add₀ Bq_ne, zpow_natCast]; push_cast; ring
+      rw [this]; exact IsMul_nat_mul _ _ _ (by omega)
+    have m2 : IsMul (qv vd (exp - ediff) - (lov : ℚ) * (B : ℚ) ^ (exp - ediff - (vd.length : ℤ))) (exp - ((prec : ℤ) + 1)) := by
+      rw [e2]
+      have : ((B ^ kv * V' : ℕ) : ℚ) * (B : ℚ) ^ (exp - ediff - (vd.length : ℤ))
+          = ((V' : ℕ) : ℚ) * (B : ℚ) ^ (exp - ediff - (vd.length : ℤ) + (kv : ℤ)) := by
+        rw [zpow_add₀ Bq_ne, zpow_natCast]; push_cast; ring
+      rw [this]; exact IsMul_nat_mul _ _ _ (by push_cast at q8; omega)
+    have := m1.sub m2
+    have e3 : qv ud exp - qv vd (exp - ediff) - (lou : ℚ) * (B : ℚ) ^ (exp - (ud.length : ℤ))
+          + (lov : ℚ) * (B : ℚ) ^ (exp - ediff - (vd.length : ℤ))
+        = (qv ud exp - (lou : ℚ) * (B : ℚ) ^ (exp - (ud.length : ℤ)))
+          - (qv vd (exp - ediff) - (lov : ℚ) * (B : ℚ) ^ (exp - ediff - (vd.length : ℤ))) := by ring
+    rw [e3]; exact this
+  · rw [s0]
+    simp only [Bool.false_eq_true, if_false, one_mul]
+    rw [q1, abs_lt]
+    constructor <;> linarith
+  · rw [abs_of_pos hpos, show exp - ((prec : ℤ) + 1) + (prec : ℤ) - 1 = exp - 2 by ring]; linarith
 
 
 theorem scan_spec : ∀ (ur vr : List Nat) (e : ℤ), Limbs ur → Limbs vr → ur ≠ [] → vr ≠ [] →
@@ -2270,6 +2393,20 @@ theorem trunc_ok (prec : ℕ) (hp : 1 ≤ prec) (d : List Nat) (e : ℤ) (hl : L
   · rw [hq, hq2]; exact err_of_nat 1 (Or.inl rfl) _ _ _ (zpow_pos Bq_pos _) prec t5 t6
   · intro hd; rw [hq, hq2, t7 hd]
 
+theorem qv_top_lt (n : ℕ) (d : List Nat) (e : ℤ) (hl : Limbs d) :
+    qv (top n d) e ≤ qv d e ∧ qv d e - qv (top n d) e < (B : ℚ) ^ (e - (n : ℤ)) := by
+  have h := qv_top n d e
+  have hlo := val_take_lt hl (d.length - n)
+  have hnn : (0 : ℚ) ≤ (val (d.take (d.length - n)) : ℚ) * (B : ℚ) ^ (e - (d.length : ℤ)) :=
+    mul_nonneg (by positivity) (le_of_lt (zpow_pos Bq_pos _))
+  refine ⟨by linarith, ?_⟩
+  rw [h, add_sub_cancel_right]
+  rcases Nat.eq_zero_or_pos (d.length - n) with h0 | h0
+  · rw [h0]; simp; exact zpow_pos Bq_pos _
+  · have := low_lt _ _ d.length e hlo
+    have e1 : e - (d.length : ℤ) + ((d.length - n : ℕ) : ℤ) = e - (n : ℤ) := by omega
+    rwa [e1] at this
+
 theorem cancellation_ok (prec : ℕ) (hp : 1 ≤ prec) (wr : List Nat) (e : ℤ) (hl : Limbs wr) (flip : Bool) (σ : ℚ)
     (hσ : σ = if flip then -1 else 1) :
     SubOK prec (σ * qr wr e) ((cancellation (prec + 1) wr e).1, (cancellation (prec + 1) wr e).2, flip) := by
@@ -2292,23 +2429,34 @@ theorem cancellation_ok (prec : ℕ) (hp : 1 ≤ prec) (wr : List Nat) (e : ℤ)
   have hσ1 : σ = 1 ∨ σ = -1 := by cases flip <;> simp [hσ]
   by_cases hw0 : w = []
   · rw [hw0]
-    refine ⟨by simp [top, Limbs_nil], by simp [top], by simp [top], fun _ => by simp [top], fun h => ?_⟩
+    refine ⟨by simp [top, Limbs_nil], by simp [top], by simp [top], fun _ => by simp [top], fun h => ?_,
+      Or.inl (by simp [qr_nil])⟩
     exfalso; apply h; simp [qr_nil]
   · have hrne : w.reverse ≠ [] := by simpa using hw0
     have hrt : w.reverse.getLast? ≠ some 0 := by
       rw [List.getLast?_reverse]; exact h2.resolve_left hw0
     obtain ⟨c1, c2, c3, c4, c5, _⟩ := trunc_ok prec hp w.reverse (e - (k : ℤ)) (Limbs_reverse hlw) hrne hrt
     have hpos : 0 < qv w.reverse (e - (k : ℤ)) := qv_pos_iff.mpr (val_pos_of_top hrne hrt)
-    refine ⟨c1, c3, c4, fun h => ?_, fun _ => ?_⟩
+    have hσa : |σ| = 1 := by rcases hσ1 with h' | h' <;> rw [h'] <;> simp
+    obtain ⟨b1, b2⟩ := qv_top_lt (prec + 1) w.reverse (e - (k : ℤ)) (Limbs_reverse hlw)
+    have hge := qv_ge w.reverse (e - (k : ℤ)) hrne hrt
+    refine ⟨c1, c3, c4, fun h => ?_, fun _ => ?_, Or.inr ⟨e - (k : ℤ) - ((prec + 1 : ℕ) : ℤ), qv_isMul _ _ _ c4, ?_, ?_⟩⟩
     · exfalso
       unfold qr at h
       rcases hσ1 with h' | h' <;> rw [h'] at h <;> linarith
     · simp only
       rw [← hσ]
       unfold qr
-      rw [← mul_sub, abs_mul, abs_mul]
-      have : |σ| = 1 := by rcases hσ1 with h' | h' <;> rw [h'] <;> simp
-      rw [this, one_mul, one_mul]; exact c5
+      rw [← mul_sub, abs_mul, abs_mul, hσa, one_mul, one_mul]; exact c5
+    · simp only
+      rw [← hσ]
+      unfold qr
+      rw [← mul_sub, abs_mul, hσa, one_mul, abs_sub_comm, abs_of_nonneg (by linarith)]; exact b2
+    · unfold qr
+      rw [abs_mul, hσa, one_mul, abs_of_pos hpos]
+      have : (B : ℚ) ^ (e - (k : ℤ) - ((prec + 1 : ℕ) : ℤ) + (prec : ℤ) - 1) ≤ (B : ℚ) ^ (e - (k : ℤ) - 1) :=
+        zpow_le_zpow_B (by push_cast; omega)
+      linarith
 
 
 
@@ -2509,7 +2657,10 @@ theorem subCloseFin_spec (rprec : ℕ) (hp : 2 ≤ rprec) (ur vr : List Nat) (e 
     (subCloseFin rprec ur vr e).1.getLast? ≠ some 0 ∧ (subCloseFin rprec ur vr e).1.length ≤ rprec + 1 ∧
     0 < (B : ℚ) ^ e + qr ur e - qr vr e ∧
     |qv (subCloseFin rprec ur vr e).1 (subCloseFin rprec ur vr e).2 - ((B : ℚ) ^ e + qr ur e - qr vr e)|
-      < eps rprec * |(B : ℚ) ^ e + qr ur e - qr vr e| := by
+      < eps rprec * |(B : ℚ) ^ e + qr ur e - qr vr e| ∧
+    ∃ W : ℤ, IsMul (qv (subCloseFin rprec ur vr e).1 (subCloseFin rprec ur vr e).2) W ∧
+      |qv (subCloseFin rprec ur vr e).1 (subCloseFin rprec ur vr e).2 - ((B : ℚ) ^ e + qr ur e - qr vr e)| < (B : ℚ) ^ W ∧
+      (B : ℚ) ^ (W + (rprec : ℤ) - 1) ≤ 2 * ((B : ℚ) ^ e + qr ur e - qr vr e) := by
   unfold subCloseFin
   simp only
   -- the fff run when u is exhausted
@@ -2616,7 +2767,8 @@ theorem subCloseFin_spec (rprec : ℕ) (hp : 2 ≤ rprec) (ur vr : List Nat) (e 
     have h3 : (0 : ℚ) < (B : ℚ) ^ (e1 - (rprec : ℤ)) := zpow_pos Bq_pos _
     nlinarith
   have hEpos : 0 < (B : ℚ) ^ e1 + qr ur e1 - qr vr1 e1 := by nlinarith
-  refine ⟨n1, ?_, n2, by omega, hEpos, ?_⟩
+  have h2E : (B : ℚ) ^ (e1 - 1) ≤ 2 * ((B : ℚ) ^ e1 + qr ur e1 - qr vr1 e1) := by nlinarith
+  refine ⟨n1, ?_, n2, by omega, hEpos, ?_, e1 - (rprec : ℤ), ?_, ?_, ?_⟩
   · intro h
     have hpos : 0 < qv tp e2 := by rw [hR]; linarith
     rw [← n4, h, qv_nil] at hpos; exact lt_irrefl _ hpos
@@ -2624,7 +2776,15 @@ theorem subCloseFin_spec (rprec : ℕ) (hp : 2 ≤ rprec) (ur vr : List Nat) (e 
     refine sub_err_q' rprec (by omega) _ _ (qr ur e1 - qr ut e1) (qr vr1 e1 - qr vt e1) (e1 + 1) (by ring) u0 v0 ?_ ?_ ?_
     · rw [show e1 + 1 - ((rprec : ℤ) + 1) = e1 - (rprec : ℤ) by ring]; exact u1
     · rw [show e1 + 1 - ((rprec : ℤ) + 1) = e1 - (rprec : ℤ) by ring]; exact v1
-    · rw [show e1 + 1 - 2 = e1 - 1 by ring]; nlinarith
+    · rw [show e1 + 1 - 2 = e1 - 1 by ring]; exact h2E
+  · rw [n4, hR]
+    have m1 : IsMul (qr ut e1) (e1 - (rprec : ℤ)) :=
+      qv_isMul _ _ _ (by rw [List.length_reverse, hut, List.length_take]; omega)
+    have m2 : IsMul (qr vt e1) (e1 - (rprec : ℤ)) :=
+      qv_isMul _ _ _ (by rw [List.length_reverse, hvt, List.length_take]; omega)
+    exact ((Bz_isMul e1 _ (by omega)).add m1).sub m2
+  · rw [n4, hR, abs_lt]; constructor <;> linarith
+  · rw [show e1 - (rprec : ℤ) + (rprec : ℤ) - 1 = e1 - 1 by ring]; exact h2E
 
 
 /-- sub.c:170-259, the whole `x+1 000… / x fff…` path: E = B^e + u − v (the implicit 1 is the difference of
@@ -2634,7 +2794,10 @@ theorem subClose_spec (rprec : ℕ) (hp : 2 ≤ rprec) : ∀ (ur vr : List Nat) 
     (subClose rprec ur vr e).1.getLast? ≠ some 0 ∧ (subClose rprec ur vr e).1.length ≤ rprec + 1 ∧
     0 < (B : ℚ) ^ e + qr ur e - qr vr e ∧
     |qv (subClose rprec ur vr e).1 (subClose rprec ur vr e).2 - ((B : ℚ) ^ e + qr ur e - qr vr e)|
-      < eps rprec * |(B : ℚ) ^ e + qr ur e - qr vr e|
+      < eps rprec * |(B : ℚ) ^ e + qr ur e - qr vr e| ∧
+    ∃ W : ℤ, IsMul (qv (subClose rprec ur vr e).1 (subClose rprec ur vr e).2) W ∧
+      |qv (subClose rprec ur vr e).1 (subClose rprec ur vr e).2 - ((B : ℚ) ^ e + qr ur e - qr vr e)| < (B : ℚ) ^ W ∧
+      (B : ℚ) ^ (W + (rprec : ℤ) - 1) ≤ 2 * ((B : ℚ) ^ e + qr ur e - qr vr e)
   | [], vr, e, hlu, hlv => by
       rw [subClose]; exact subCloseFin_spec rprec hp [] vr e hlu hlv (by simp)
       all_goals simp
@@ -2659,24 +2822,32 @@ theorem subClose_spec (rprec : ℕ) (hp : 2 ≤ rprec) : ∀ (ur vr : List Nat) 
 
 theorem SubOK_neg {prec : ℕ} {D : ℚ} {rd : List Nat} {e : ℤ} {f : Bool} (h : SubOK prec D (rd, e, f)) :
     SubOK prec (-D) (rd, e, !f) := by
-  obtain ⟨h1, h2, h3, h4, h5⟩ := h
-  refine ⟨h1, h2, h3, fun h => h4 (by linarith), fun h => ?_⟩
-  have := h5 (by intro h'; apply h; rw [h']; ring)
-  simp only at this ⊢
-  rw [abs_neg]
+  obtain ⟨h1, h2, h3, h4, h5, h6⟩ := h
   have e : (if (!f) = true then (-1 : ℚ) else 1) * qv rd e - -D = -((if f = true then (-1 : ℚ) else 1) * qv rd e - D) := by
     cases f <;> simp <;> ring
-  rw [e, abs_neg]; exact this
+  refine ⟨h1, h2, h3, fun h => h4 (by linarith), fun h => ?_, ?_⟩
+  · have := h5 (by intro h'; apply h; rw [h']; ring)
+    simp only at this ⊢
+    rw [abs_neg, e, abs_neg]; exact this
+  · rcases h6 with h0 | ⟨W, w1, w2, w3⟩
+    · left; rw [h0]; ring
+    · right
+      refine ⟨W, w1, ?_, by rw [abs_neg]; exact w3⟩
+      simp only at w2 ⊢
+      rw [e, abs_neg]; exact w2
 
 theorem SubOK_congr {prec : ℕ} {D D' : ℚ} {r : List Nat × ℤ × Bool} (h : SubOK prec D r) (hd : D = D') :
     SubOK prec D' r := hd ▸ h
 
 theorem SubOK_of_close {prec : ℕ} {E : ℚ} {rd : List Nat} {e : ℤ}
-    (h : Limbs rd ∧ rd ≠ [] ∧ rd.getLast? ≠ some 0 ∧ rd.length ≤ prec + 1 ∧ 0 < E ∧ |qv rd e - E| < eps prec * |E|) :
+    (h : Limbs rd ∧ rd ≠ [] ∧ rd.getLast? ≠ some 0 ∧ rd.length ≤ prec + 1 ∧ 0 < E ∧ |qv rd e - E| < eps prec * |E| ∧
+      ∃ W : ℤ, IsMul (qv rd e) W ∧ |qv rd e - E| < (B : ℚ) ^ W ∧ (B : ℚ) ^ (W + (prec : ℤ) - 1) ≤ 2 * E) :
     SubOK prec E (rd, e, false) := by
-  obtain ⟨h1, h2, h3, h4, h5, h6⟩ := h
-  refine ⟨h1, h3, h4, fun h => absurd h (ne_of_gt h5), fun _ => ?_⟩
-  simpa using h6
+  obtain ⟨h1, h2, h3, h4, h5, h6, W, w1, w2, w3⟩ := h
+  refine ⟨h1, h3, h4, fun h => absurd h (ne_of_gt h5), fun _ => ?_, Or.inr ⟨W, w1, ?_, ?_⟩⟩
+  · simpa using h6
+  · simpa using w2
+  · rw [abs_of_pos h5]; exact w3
 
 theorem qr_reverse (d : List Nat) (e : ℤ) : qr d.reverse e = qv d e := by unfold qr; rw [List.reverse_reverse]
 
@@ -2902,7 +3073,7 @@ theorem fin_of_SubOK (prec : ℕ) (hp : 2 ≤ prec) (D : ℚ) (rd : List Nat) (e
     (D = 0 → toQ ⟨prec, if (c != flip) = true then -(rd.length : Int) else (rd.length : Int), if rd.length = 0 then 0 else e, rd⟩ = 0) ∧
     (D ≠ 0 → |toQ ⟨prec, if (c != flip) = true then -(rd.length : Int) else (rd.length : Int), if rd.length = 0 then 0 else e, rd⟩
         - (if c then -1 else 1) * D| < eps prec * |D|) := by
-  obtain ⟨h1, h2, h3, h4, h5⟩ := h
+  obtain ⟨h1, h2, h3, h4, h5, _⟩ := h
   simp only at h1 h2 h3 h4 h5
   refine ⟨WF_mk_neg h1 h2 h3 (fun h => by rw [h]; simp), fun hD => toQ_of_size_zero (h4 hD), fun hD => ?_⟩
   have hb := h5 hD
@@ -3754,6 +3925,137 @@ theorem add_ui_accurate (prec : ℕ) (hp : 2 ≤ prec) (u : F) (w : ℕ) (hu : O
       · exact accurate_of_set prec (by omega) u hu
       · exact accurate_alias prec u hu (hau rfl)
     · exact add_ui_pos prec hp u w hu hpos h0 hw rIsU hau
+
+
+/-! ### exactness of add / sub -/
+
+theorem fin_toQ (prec : ℕ) (rd : List Nat) (e : ℤ) (flip c : Bool) :
+    toQ ⟨prec, if (c != flip) = true then -(rd.length : Int) else (rd.length : Int), if rd.length = 0 then 0 else e, rd⟩
+      = (if c then -1 else 1) * ((if flip then -1 else 1) * qv rd e) := by
+  by_cases hl : rd.length = 0
+  · have : rd = [] := List.eq_nil_of_length_eq_zero hl
+    subst this; simp [toQ, qv]
+  · rw [if_neg hl, toQ_mk_neg]
+    have hq : (val rd : ℚ) * (B : ℚ) ^ (e - (rd.length : ℤ)) = qv rd e := rfl
+    rw [mul_assoc, hq]
+    cases c <;> cases flip <;> simp
+
+theorem subMag_exact (prec : ℕ) (hp : 2 ≤ prec) (u v : F) (hu : OpWF u) (hv : OpWF v)
+    (hu0 : u.size ≠ 0) (hv0 : v.size ≠ 0) (hs : (u.size < 0) ↔ (v.size < 0))
+    (fe : Fits (toQ u - toQ v) (PREC_TO_BITS prec)) :
+    toQ (subMag prec (decide (u.size < 0)) u v) = toQ u - toQ v := by
+  have hnu := hu.ne_nil hu0
+  have hnv := hv.ne_nil hv0
+  have hsg : sg v = sg u := by
+    unfold sg
+    by_cases h : u.size < 0
+    · rw [if_pos h, if_pos (hs.mp h)]
+    · rw [if_neg h, if_neg (fun h' => h (hs.mpr h'))]
+  have hD : toQ u - toQ v = sg u * (qv u.d u.exp - qv v.d v.exp) := by rw [toQ_qv u, toQ_qv v, hsg]; ring
+  have hsgc : sg u = (if (decide (u.size < 0)) = true then (-1 : ℚ) else 1) := by
+    unfold sg; by_cases h : u.size < 0 <;> simp [h]
+  rw [hD] at fe ⊢
+  have fe' := fits_sg (sg_cases u) fe
+  unfold subMag
+  simp only
+  by_cases hswap : u.exp < v.exp
+  · simp only [hswap, decide_true, if_true]
+    have hok := subCore_ok prec hp v.d u.d v.exp u.exp hv.1 hnv hv.2.2.1 hu.1 hnu (le_of_lt hswap)
+    have fneg : Fits (qv v.d v.exp - qv u.d u.exp) (PREC_TO_BITS prec) := by
+      have := fits_neg fe'; rwa [neg_sub] at this
+    generalize subCore prec v.d v.exp u.d u.exp = r at *
+    obtain ⟨rd, e, flip⟩ := r
+    obtain ⟨_, _, _, z4, _, hwin⟩ := hok
+    rw [fin_toQ]
+    rcases exact_of_win prec (by omega) _ _ hwin fneg with h | h
+    · simp only at h
+      rw [h, hsgc]; by_cases h' : u.size < 0 <;> simp [h']
+    · have hrd : rd = [] := z4 h
+      have h2 : qv u.d u.exp - qv v.d v.exp = 0 := by linarith
+      rw [hrd, qv_nil, h2]; simp
+  · simp only [hswap, decide_false, if_false]
+    have hok := subCore_ok prec hp u.d v.d u.exp v.exp hu.1 hnu hu.2.2.1 hv.1 hnv (by omega)
+    generalize subCore prec u.d u.exp v.d v.exp = r at *
+    obtain ⟨rd, e, flip⟩ := r
+    obtain ⟨_, _, _, z4, _, hwin⟩ := hok
+    rw [fin_toQ]
+    rcases exact_of_win prec (by omega) _ _ hwin fe' with h | h
+    · simp only at h
+      rw [h, hsgc]; by_cases h' : u.size < 0 <;> simp [h']
+    · have hrd : rd = [] := z4 h
+      rw [hrd, qv_nil, h]; simp
+
+
+theorem exact_of_set (prec : ℕ) (hp : 1 ≤ prec) (u : F) (hu : OpWF u) (f : Fits (toQ u) (PREC_TO_BITS prec)) :
+    toQ (set prec u) = toQ u := (set_spec prec hp u hu).2.2 f
+
+/-- mpf_sub is exact whenever both operands and the difference fit in p bits (all cases) -/
+theorem sub_exact (prec : ℕ) (hp : 2 ≤ prec) (u v : F) (hu : OpWF u) (hv : OpWF v) (rIsU rIsV : Bool)
+    (fu : Fits (toQ u) (PREC_TO_BITS prec)) (fv : Fits (toQ v) (PREC_TO_BITS prec))
+    (fe : Fits (toQ u - toQ v) (PREC_TO_BITS prec)) :
+    toQ (sub prec rIsU rIsV u v) = toQ u - toQ v := by
+  unfold sub
+  by_cases hu0 : u.size = 0
+  · rw [if_pos hu0, toQ_of_size_zero (hu.d_nil hu0), zero_sub, ← toQ_neg_size v hv]
+    cases rIsV
+    · rw [neg_eq_set]
+      exact exact_of_set prec (by omega) _ (OpWF_neg_size v hv) (by rw [toQ_neg_size v hv]; exact fits_neg fv)
+    · rfl
+  · rw [if_neg hu0]
+    by_cases hv0 : v.size = 0
+    · rw [if_pos hv0, toQ_of_size_zero (hv.d_nil hv0), sub_zero]
+      cases rIsU
+      · exact exact_of_set prec (by omega) u hu fu
+      · rfl
+    · rw [if_neg hv0]
+      by_cases hs : (u.size < 0) ↔ (v.size < 0)
+      · have hb : ((decide (u.size < 0)) != (decide (v.size < 0))) = false := by
+          by_cases a : u.size < 0
+          · simp [a, hs.mp a]
+          · have b : ¬ v.size < 0 := fun h => a (hs.mpr h)
+            simp [a, b]
+        rw [hb]; simp only [Bool.false_eq_true, if_false]
+        exact subMag_exact prec hp u v hu hv hu0 hv0 hs fe
+      · have hb : ((decide (u.size < 0)) != (decide (v.size < 0))) = true := by
+          by_cases a : u.size < 0 <;> by_cases b : v.size < 0 <;> simp [a, b] <;> exact hs (by simp [a, b])
+        rw [hb]; simp only [if_true]
+        have := addSame_exact prec (by omega) u {v with size := -v.size} hu (OpWF_neg_size v hv) hu0
+          (by simpa using hv0) (neg_size_sign v hv0 u hs) fu (by rw [toQ_neg_size v hv]; exact fits_neg fv)
+          (by rw [toQ_neg_size v hv, ← sub_eq_add_neg]; exact fe)
+        rwa [toQ_neg_size v hv, ← sub_eq_add_neg] at this
+
+/-- mpf_add is exact whenever both operands and the sum fit in p bits (all cases) -/
+theorem add_exact (prec : ℕ) (hp : 2 ≤ prec) (u v : F) (hu : OpWF u) (hv : OpWF v) (rIsU rIsV : Bool)
+    (fu : Fits (toQ u) (PREC_TO_BITS prec)) (fv : Fits (toQ v) (PREC_TO_BITS prec))
+    (fe : Fits (toQ u + toQ v) (PREC_TO_BITS prec)) :
+    toQ (add prec rIsU rIsV u v) = toQ u + toQ v := by
+  unfold add
+  by_cases hu0 : u.size = 0
+  · rw [if_pos hu0, toQ_of_size_zero (hu.d_nil hu0), zero_add]
+    cases rIsV
+    · exact exact_of_set prec (by omega) v hv fv
+    · rfl
+  · rw [if_neg hu0]
+    by_cases hv0 : v.size = 0
+    · rw [if_pos hv0, toQ_of_size_zero (hv.d_nil hv0), add_zero]
+      cases rIsU
+      · exact exact_of_set prec (by omega) u hu fu
+      · rfl
+    · rw [if_neg hv0]
+      by_cases hs : (u.size < 0) ↔ (v.size < 0)
+      · have hb : ((decide (u.size < 0)) != (decide (v.size < 0))) = false := by
+          by_cases a : u.size < 0
+          · simp [a, hs.mp a]
+          · have b : ¬ v.size < 0 := fun h => a (hs.mpr h)
+            simp [a, b]
+        rw [hb]; simp only [Bool.false_eq_true, if_false]
+        exact addSame_exact prec (by omega) u v hu hv hu0 hv0 hs fu fv fe
+      · have hb : ((decide (u.size < 0)) != (decide (v.size < 0))) = true := by
+          by_cases a : u.size < 0 <;> by_cases b : v.size < 0 <;> simp [a, b] <;> exact hs (by simp [a, b])
+        rw [hb]; simp only [if_true]
+        have := subMag_exact prec hp u {v with size := -v.size} hu (OpWF_neg_size v hv) hu0
+          (by simpa using hv0) (neg_size_sign v hv0 u hs) (by rw [toQ_neg_size v hv, sub_neg_eq_add]; exact fe)
+        rwa [toQ_neg_size v hv, sub_neg_eq_add] at this
 
 
 end Mpir.Mpf
